@@ -90,12 +90,15 @@ func (h *harness) nativeStream(n int) {
 }
 
 // stripForNative rewrites a document into the shape that survives the native round trip: no false, no
-// json.Number, no empty containers.
+// json.Number that fits an int64, no empty containers.
 func stripForNative(v any) any {
 	switch tv := v.(type) {
 	case bool:
 		return true
 	case json.Number:
+		if _, err := strconv.ParseInt(string(tv), 10, 64); err != nil && isIntLiteral(string(tv)) {
+			return tv // beyond int64: a bignum in Lisp, a json.Number again on the way back
+		}
 		return int64(len(tv))
 	case []any:
 		if len(tv) == 0 {
@@ -259,8 +262,11 @@ func genGoScalar(r *common.Rng, guarded bool, hist func(string)) any {
 	case x < 72:
 		hist("go:bytes")
 		return []byte(common.Pick(r, []string{"", "raw", "\x00\xff", "é"}))
-	case x < 76 && !guarded:
+	case x < 76:
 		hist("go:json.Number")
+		if guarded {
+			return json.Number(common.Pick(r, []string{"0", "-1", "42", "9223372036854775807", "-9223372036854775808", "9223372036854775800"}))
+		}
 		return json.Number(common.Pick(r, bigNumPool))
 	default:
 		hist("go:string")
@@ -390,7 +396,13 @@ func (h *harness) replayKnownGo() {
 	}
 	if _, ok := ctx.Known["C18-bridge-uint64"]; ok {
 		got := slip.Simplify(slip.SimpleObject(uint64(1 << 63)))
-		ctx.KnownResult("C18-bridge-uint64", fmt.Sprint(got) != "9223372036854775808", fmt.Sprint(got))
+		_, wrapped := got.(int64)
+		ctx.KnownResult("C18-bridge-uint64", wrapped, fmt.Sprintf("%T %v", got, got))
+	}
+	if _, ok := ctx.Known["C18-bridge-bignum-string"]; ok {
+		got := slip.Simplify(slip.SimpleObject(uint64(1 << 63)))
+		_, isStr := got.(string)
+		ctx.KnownResult("C18-bridge-bignum-string", isStr, fmt.Sprintf("%T %v", got, got))
 	}
 }
 
